@@ -336,13 +336,13 @@ func runC19(c *Ctx) {
 			ok := false
 			core.EachInstr(fv, func(in ssa.Instruction) {
 				if mu, isMU := in.(*ssa.MapUpdate); isMU {
-					if k, _ := core.ConstString(mu.Key); k == "code" && derivesFromParam(mu.Value, fv.Params[len(fv.Params)-1], 0) {
+					if k, _ := core.ConstString(mu.Key); k == "code" && derivesFromParam(mu.Value, fv.Params[len(fv.Params)-1], 0) && !narrowed(mu.Value, 0) {
 						ok = true
 					}
 				}
 			})
 			R.Check(ok, "C19.dispatch", "http|"+f+"|code-from-error", P.Pos(fv.Pos()),
-				"the response code is the error's own code", "the response's code member is not derived from the error", nil)
+				"the response code is the error's own code, unconverted", "the response's code member is not the error's own value (not derived from it, or cut by a narrowing conversion such as int32(code): a code that is a multiple of 2^32 would be answered as 0 = success)", nil)
 		}
 		if fv := globalFuncValue(P, "http", "FilterCplxSystemError"); R.Anchor(fv != nil, "C19.dispatch", "http.FilterCplxSystemError") {
 			ok := false
@@ -432,6 +432,47 @@ func runC19(c *Ctx) {
 	}
 
 	// ---- C19.client
+	// the whole response body is parsed: the reader handed to ReadAll is the response's Body itself, not a wrapper
+	// (io.LimitReader and the like) that can end early without an error
+	if ag := P.Func("http", "apiGet"); R.Anchor(ag != nil, "C19.client", "http.apiGet") {
+		nRead, bad := 0, ""
+		for fn := range P.Reachable(ag) {
+			core.EachInstr(fn, func(in ssa.Instruction) {
+				call, ok := in.(*ssa.Call)
+				if !ok || call.Call.StaticCallee() == nil {
+					return
+				}
+				switch core.FullName(call.Call.StaticCallee()) {
+				case "io/ioutil.ReadAll", "io.ReadAll", "ioutil.ReadAll":
+					nRead++
+					arg := core.StripConv(call.Call.Args[0])
+					if ld, isLd := arg.(*ssa.UnOp); !(isLd && strings.HasSuffix(core.Path(ld.X), ".Body")) {
+						bad = fmt.Sprintf("the reader at %s is %s, not the response's Body", P.InstrPos(call), describeValue(arg))
+					}
+				}
+			})
+		}
+		// a body is accepted only from a 200 answer: plain errors are answered with their status and the error text as
+		// body, and a text that happens to be {"code":0} must not be read as success
+		statusOK := false
+		ei := core.ErrResultIndex(ag)
+		for _, r := range core.Returns(ag) {
+			if !mayBeNil(core.ReturnOperand(r, ei), 0) {
+				continue
+			}
+			for _, a := range core.GuardAtoms(r.Block()) {
+				if strings.HasSuffix(a.L, ".StatusCode") && a.Op == "==" && a.R == "200" {
+					statusOK = true
+				}
+			}
+		}
+		R.Check(statusOK, "C19.client", "http|apiGet|status-200-required", P.Pos(ag.Pos()),
+			"the client accepts a body only from an HTTP 200 answer",
+			"the client never looks at the HTTP status: a plain error (answered with status 500 and the error text as body) whose text parses as {\"code\":0} is reported as success", nil)
+		R.Check(nRead >= 1 && bad == "", "C19.client", "http|apiGet|reads-whole-body", P.Pos(ag.Pos()),
+			"the client reads the response's Body itself to the end",
+			"the client does not read the whole response body ("+bad+"): a long success envelope would be cut and reported as a parse failure", nil)
+	}
 	ap := P.Func("http", "apiParse")
 	if R.Anchor(ap != nil, "C19.client", "http.apiParse") {
 		ei := core.ErrResultIndex(ap)
@@ -469,6 +510,13 @@ func runC19(c *Ctx) {
 	}
 }
 
+func describeValue(v ssa.Value) string {
+	if c, ok := v.(*ssa.Call); ok {
+		return "the result of " + core.CalleeName(&c.Call)
+	}
+	return v.Name() + " (" + v.Type().String() + ")"
+}
+
 // globalFuncValue returns the function stored into a package-level func variable by the package initialiser.
 func globalFuncValue(P *core.Program, pkg, name string) *ssa.Function {
 	g := P.Global(pkg, name)
@@ -492,6 +540,35 @@ func globalFuncValue(P *core.Program, pkg, name string) *ssa.Function {
 		}
 	})
 	return out
+}
+
+// narrowed: on the way from its source the value passes an integer conversion to a smaller type.
+func narrowed(v ssa.Value, d int) bool {
+	if d > 12 {
+		return false
+	}
+	v = core.StripConv(v)
+	switch x := v.(type) {
+	case *ssa.Convert:
+		fb, ok1 := x.X.Type().Underlying().(*types.Basic)
+		tb, ok2 := x.Type().Underlying().(*types.Basic)
+		if ok1 && ok2 && fb.Info()&types.IsInteger != 0 && tb.Info()&types.IsInteger != 0 {
+			sz := &types.StdSizes{WordSize: 8, MaxAlign: 8}
+			if sz.Sizeof(tb) < sz.Sizeof(fb) {
+				return true
+			}
+		}
+		return narrowed(x.X, d+1)
+	case *ssa.MakeInterface:
+		return narrowed(x.X, d+1)
+	case *ssa.Phi:
+		for _, e := range x.Edges {
+			if narrowed(e, d+1) {
+				return true
+			}
+		}
+	}
+	return false
 }
 
 func derivesFromParam(v ssa.Value, p *ssa.Parameter, d int) bool {
